@@ -1,8 +1,86 @@
-(* C14 — lemmas behind Props.v (assembled from ProofsBytes / ProofsIds / ProofsGraph). *)
+(* C14 — lemmas behind Props.v, assembled from
+     ProofsBytes  (byte level: every emitted record is read back; stream = records in order)
+     ProofsIds    (the returned id is the pure function [tid] of the term)
+     ProofsStr    (string lemmas; uuid5 yields 16 bytes)
+     ProofsInj    (the hashed strings determine their components; equal ids => equal skeletons;
+                   with the schema-determined attributes, equal ids => equal terms)
+     ProofsGraph  (encoder invariant: emitted records resolve to the expected descriptions) *)
 From Coq Require Import List NArith Bool Lia.
-From Verif.C14 Require Import Gen_Tags Model ProofsBytes.
+From Verif.C14 Require Import Gen_Tags Model Spec ProofsBytes ProofsIds ProofsStr ProofsInj ProofsGraph.
 Import ListNotations.
 Open Scope N_scope.
 
 Definition p_codec_roundtrip := parse_desc_ser.
 Definition p_stream_parses := parse_stream.
+Definition p_uuid5_wf := uuid5_wf.
+Definition p_root_id := describe_root_id.
+
+(* entities reachable from a root type (everything that can get a descriptor while it is described) *)
+Inductive Reach (c : cfg) (root : ty) : entity -> Prop :=
+| reach_root : Reach c root (ETy root)
+| reach_step : forall e e', Reach c root e -> In e' (ents_e c e) -> Reach c root e'.
+
+Lemma p_roundtrip : forall H c t b i,
+  inline_tn c && negb (v2 c) = false ->
+  (forall e1 e2 z, Reach c t e1 -> Reach c t e2 -> eid H c e1 = eid H c e2 ->
+                   eexp H c z e1 = eexp H c z e2) ->
+  (forall e, Reach c t e -> ~ In (eid H c e) (map (eid H c) (proper c e))) ->
+  (forall e, Reach c t e -> wf_ent H c e) ->
+  describe H c t = Ok (b, i) ->
+  i = tid H c t /\ exists z, parse c b = Some (expect H c z t).
+Proof.
+  intros H c t b i Hanno IdDet Acyc Wf E.
+  eapply (describe_parse H c (Reach c t)); eauto.
+  - intros e e' R Hi. eapply reach_step; eauto.
+  - apply reach_root.
+Qed.
+
+(* every descriptor is emitted once *)
+Lemma p_emitted_once : forall H c t i s,
+  inline_tn c && negb (v2 c) = false ->
+  (forall e1 e2 z, Reach c t e1 -> Reach c t e2 -> eid H c e1 = eid H c e2 ->
+                   eexp H c z e1 = eexp H c z e2) ->
+  (forall e, Reach c t e -> ~ In (eid H c e) (map (eid H c) (proper c e))) ->
+  (forall e, Reach c t e -> wf_ent H c e) ->
+  desc_ty H c t st0 = Ok (i, s) ->
+  NoDup (map node_id (nodes s)) /\ Forall (wf_node c) (nodes s).
+Proof.
+  intros H c t i s Hanno IdDet Acyc Wf E.
+  destruct (ty_post H c (Reach c t) IdDet (fun e e' R Hi => reach_step c t e e' R Hi) Acyc Wf Hanno
+                    t st0 i s (reach_root c t) (inv_st0 H c (Reach c t)) E) as [_ (I & _)].
+  split.
+  - rewrite (inv_ids _ _ _ _ I). apply (inv_nodup _ _ _ _ I).
+  - apply (inv_wf _ _ _ _ I).
+Qed.
+
+(* protocol >= 2: every descriptor is prefixed by its own length *)
+Lemma p_v2_lengths : forall c n b, v2 c = true -> ser c n = Some b ->
+  exists body, ser_body c n = Some body /\ b = word_bytes (len body) ++ body /\ len body < M32.
+Proof.
+  intros c n b V E. unfold ser, lenpfx in E. destruct (ser_body c n) as [body|]; [|discriminate].
+  rewrite V in E. unfold u32 in E. destruct (len body <? M32) eqn:Q; cbn [ocat] in E; [|discriminate].
+  inversion E. exists body. rewrite app_nil_r. repeat split; auto. apply N.ltb_lt; auto.
+Qed.
+
+Definition p_idstr_collection := coll_idstr_inj.
+Definition p_idstr_shape := shape_idstr_inj.
+Definition p_idstr_set := set_idstr_inj.
+Definition p_id_injective := id_inj.
+
+Lemma p_id_functional : forall H, (forall s, wf_uuid (H s)) ->
+  forall c, flt c = [] -> follow c = true ->
+  forall (Sset : str -> Prop) (Gset : uuid -> Prop) (ScSet : scalar -> Prop) (env : senv),
+  (forall a b, Sset a -> Sset b -> H a = H b -> a = b) ->
+  (forall s g, Sset s -> Gset g -> H s <> g) ->
+  Gset ID_EMPTY_TUPLE ->
+  (forall a b, ScSet a -> ScSet b -> sid a = sid b -> a = b) ->
+  forall t1 t2,
+  all_ok H c Sset Gset ScSet t1 -> all_ok H c Sset Gset ScSet t2 ->
+  conf H c env t1 -> conf H c env t2 ->
+  tid H c t1 = tid H c t2 -> t1 = t2 /\ describe H c t1 = describe H c t2.
+Proof.
+  intros H Hwf c Hf Hl Sset Gset ScSet env NC Fr Ge Sc t1 t2 O1 O2 C1 C2 E.
+  assert (t1 = t2).
+  { eapply skel_conf_eq; eauto. eapply id_inj; eauto. }
+  subst. auto.
+Qed.
